@@ -41,7 +41,7 @@ def gen_cases(tier, seed):
               "logabsdet", "random_orthogonal", "masks", "temperature", "kde", "typechecks", "misc",
               "library"]
     cases = []
-    reps = 2 if tier == "quick" else 8
+    reps = 2 if tier == "quick" else 30
     for g in groups:
         for rep in range(reps):
             cases.append({"group": g, "ext": ext, "rep": rep, "seed": env.subseed(seed, g, rep),
